@@ -392,8 +392,27 @@ def program_cases(cases):
     return out
 
 
+def coqchk(ck):
+    """Thorough tier: re-check the compiled property module with the stand-alone checker."""
+    rc, out = core.sh(["coqchk", "-o", "-silent", "-Q", ".", "NV", "NV.Props.C12"], cwd=core.COQ, timeout=1500)
+    wanted = ["* Axioms: <none>", "type-in-type: <none>", "unsafe (co)fixpoints: <none>", "positivity is assumed: <none>"]
+    clean = rc == 0 and all(w in out for w in wanted)
+    ck.obligation("coqchk NV.Props.C12 (no axioms, no unsafe fixpoints, no assumed positivity)", "coqchk", clean, out[-1200:])
+
+
 def run(ck):
-    ck.coq("Props.C12", clean=False)
+    if ck.tier == "thorough":
+        # full rebuild of this property's own files only (the coq/ tree is shared with the other
+        # properties' checks, so no global `make clean`)
+        import glob
+        for f in glob.glob(os.path.join(core.COQ, "Mech", "*.vo")) + glob.glob(os.path.join(core.COQ, "Props", "C12*.vo")):
+            try:
+                os.remove(f)
+            except OSError:
+                pass
+    ok_coq = ck.coq("Props.C12", clean=False)
+    if ck.tier == "thorough" and ok_coq:
+        coqchk(ck)
     ok = ck.harness(["c12"])
     exe_model = ck.model("C12.v")
     if not ok or not exe_model:
